@@ -1009,3 +1009,27 @@ func onlyLoaded(fv *ssa.FreeVar, depth int) bool {
 	}
 	return true
 }
+
+// ResolveCell is the exported form of resolveCell.
+func (fi *FuncInfo) ResolveCell(fv *ssa.FreeVar) (*FuncInfo, *ssa.Alloc, *ssa.MakeClosure) {
+	return fi.resolveCell(fv)
+}
+
+// StructFieldByName returns the canonical text of the single value stored to the named field of a
+// local struct (composite literal), or "".
+func (fi *FuncInfo) StructFieldByName(al *ssa.Alloc, name string) string {
+	var out string
+	n := 0
+	for a2, ss := range fi.storesTo {
+		if f2, ok := a2.(*ssa.FieldAddr); ok && f2.X == ssa.Value(al) && FieldOf(f2).Name() == name {
+			for _, s := range ss {
+				out = fi.T(s.Val).S
+				n++
+			}
+		}
+	}
+	if n != 1 {
+		return ""
+	}
+	return out
+}
